@@ -8,7 +8,7 @@ TRUSTED = ["per-mechanism theorems (deliveries of a send, enqueue once, consume 
            "'every connected recipient': the bench DSL connects all ports before the simulation starts; connections added later through a clone of a port (util/cached_rw_lock.rs) are covered by the CachedRw theorems (C14) and by op sequences on the verbatim cached_rw_lock.rs run here as well"]
 TRUSTED = TRUSTED + chanprops.TRUSTED
 ASSUMPTIONS = ["benches of this family do not schedule from handlers, so the oracle's accounting is exact"]
-ORACLES = (oracles.o_harness, oracles.o_exactly_once, oracles.o_time)
+ORACLES = (oracles.o_harness, oracles.o_exactly_once, oracles.o_sink_closure, oracles.o_time)
 
 
 def nontrivial(c, mobs):
